@@ -17,6 +17,11 @@ LIMITS = {'%': (-32768, 32767), '&': (-2 ** 31, 2 ** 31 - 1)}
 FMAX = 3.4028234663852886e+38
 
 
+def skey(s):
+    """Ordering key of a string: its code page 437 codes."""
+    return s.encode('cp437', 'replace')
+
+
 class QBError(Exception):
     def __init__(self, kind):
         super().__init__(kind)
@@ -288,6 +293,8 @@ class Interp:
             b = self.ev(e[3])
             if op == '+':
                 return a + b
+            # strings are sequences of code page 437 characters and are ordered by their codes
+            a, b = skey(a), skey(b)
             return -1 if {'=': a == b, '<>': a != b, '<': a < b, '>': a > b, '<=': a <= b, '>=': a >= b}[op] else 0
         rt = etype(e)
         if op in ('=', '<>', '<', '>', '<=', '>='):
@@ -393,7 +400,7 @@ class Interp:
         if f == 'ASC':
             if vals[0] == '':
                 raise QBError('illegal')
-            return ord(vals[0][0].encode('cp437', 'replace')) if False else ord(vals[0][0])
+            return skey(vals[0][0])[0]          # the character's code in code page 437 (ASC(CHR$(n)) = n)
         if f == 'CHR$':
             c = conv(vals[0], '%')
             if c < 0 or c > 255:
@@ -438,9 +445,10 @@ class Interp:
                 return vals[0][start - 1:start - 1 + n]
             return vals[0][start - 1:]
         if f == 'UCASE$':
-            return vals[0].upper()
+            # only the 26 letters change case (accented letters of the code page stay as they are)
+            return ''.join(chr(ord(c) - 32) if 'a' <= c <= 'z' else c for c in vals[0])
         if f == 'LCASE$':
-            return vals[0].lower()
+            return ''.join(chr(ord(c) + 32) if 'A' <= c <= 'Z' else c for c in vals[0])
         if f == 'LTRIM$':
             return vals[0].lstrip(' ')
         if f == 'RTRIM$':
@@ -750,6 +758,12 @@ class Interp:
         def cv(e):
             x = self.ev(e)
             return x if t == '$' else conv(x, t)
+        if isinstance(v, str):
+            v = skey(v)
+            _cv = cv
+
+            def cv(x_, _cv=_cv):
+                return skey(_cv(x_))
         for items, body in cases:
             hit = False
             for it in items:        # every clause of a CASE is evaluated
